@@ -138,6 +138,11 @@ func (p *Prog) initTransparency() {
 			continue
 		}
 		if inventory[short(f.String())] {
+			// a straight-line accessor the baseline library never called itself (it exists for API users): once library
+			// code calls it, the call is looked through like a call to a new helper
+			if uncalledInventory[short(f.String())] && len(f.Blocks) == 1 && len(ti.callers[f]) > 0 {
+				cand[f] = true
+			}
 			continue
 		}
 		if _, renamed := ti.alias[f]; renamed {
@@ -355,6 +360,8 @@ type vpoint struct {
 	idx  int
 	ret  map[*ssa.Call]*ssa.Return // path-sensitive: through which return each helper call on this path came back
 	rk   string
+	denv map[string]bool // outcome, on this path, of each pure condition the function tests more than once
+	dk   string
 }
 
 // resultEnv says, while a path is being explored, through which of its returns a looked-through helper call came
@@ -372,26 +379,31 @@ func viPathExists(root *ssa.Function, from, to ssa.Instruction, cutEdge EdgePred
 	var work []vpoint
 	var cur vpoint
 	pushR := func(fr *frame, b *ssa.BasicBlock, i int, ret map[*ssa.Call]*ssa.Return, rk string) {
-		k := fr.key + "|" + b.Parent().Name() + "#" + itoa(b.Index) + ":" + itoa(i) + "|" + rk + "|" + cur.bk
+		k := fr.key + "|" + b.Parent().Name() + "#" + itoa(b.Index) + ":" + itoa(i) + "|" + rk + "|" + cur.bk + "|" + cur.dk
 		if seen[k] {
 			return
 		}
 		seen[k] = true
-		work = append(work, vpoint{fr: fr, blk: b, idx: i, ret: ret, rk: rk, benv: cur.benv, bk: cur.bk})
+		work = append(work, vpoint{fr: fr, blk: b, idx: i, ret: ret, rk: rk, benv: cur.benv, bk: cur.bk, denv: cur.denv, dk: cur.dk})
 	}
 	push := func(fr *frame, b *ssa.BasicBlock, i int) { pushR(fr, b, i, cur.ret, cur.rk) }
 	edgeHit := false
+	nextDenv, nextDk := map[string]bool(nil), ""
 	pushFrom := func(fr *frame, b, pred *ssa.BasicBlock) {
 		if targetEdge[0] != nil && pred == targetEdge[0] && b == targetEdge[1] {
 			edgeHit = true // the search is for this CFG edge (pathExistsToEdge)
 		}
 		benv, bk := boolPhiEnv(cur.benv, cur.bk, b, pred)
-		k := fr.key + "|" + b.Parent().Name() + "#" + itoa(b.Index) + ":0|" + cur.rk + "|" + bk
+		denv, dk := cur.denv, cur.dk
+		if nextDenv != nil {
+			denv, dk = nextDenv, nextDk
+		}
+		k := fr.key + "|" + b.Parent().Name() + "#" + itoa(b.Index) + ":0|" + cur.rk + "|" + bk + "|" + dk
 		if seen[k] {
 			return
 		}
 		seen[k] = true
-		work = append(work, vpoint{fr: fr, blk: b, idx: 0, ret: cur.ret, rk: cur.rk, benv: benv, bk: bk})
+		work = append(work, vpoint{fr: fr, blk: b, idx: 0, ret: cur.ret, rk: cur.rk, benv: benv, bk: bk, denv: denv, dk: dk})
 	}
 	defer func() { _ = edgeHit }()
 	if from == nil {
@@ -467,7 +479,18 @@ func viPathExists(root *ssa.Function, from, to ssa.Instruction, cutEdge EdgePred
 				if len(pt.ret) > 0 && (infeasibleEdge(cond, br) || nilTestContradictsReturn(cond, br, pt.ret)) {
 					continue // contradicts the value the helper returned on this path
 				}
+				if factNil(neverNil, true)(cond, br) {
+					continue // a defensive nil test of a value that is never nil (a fresh allocation, bufio.NewReader(…) …)
+				}
+				// a pure condition over unmodified local state that the function tests more than once comes out the same
+				// way every time on one path (`case a == nil && …: … case a != nil:`)
+				var contradiction bool
+				nextDenv, nextDk, contradiction = decideRepeated(pt.denv, cond, br, b.Parent())
+				if contradiction {
+					continue
+				}
 				pushFrom(fr, b.Succs[i], b)
+				nextDenv, nextDk = nil, ""
 			}
 		} else {
 			for _, s := range b.Succs {
@@ -585,22 +608,27 @@ func viPathToSite(root *ssa.Function, s Site, cutEdge EdgePred, cutInstr func(ss
 	var work []vpoint
 	var cur vpoint
 	pushR := func(fr *frame, b *ssa.BasicBlock, i int, ret map[*ssa.Call]*ssa.Return, rk string) {
-		k := fr.key + "|" + b.Parent().Name() + "#" + itoa(b.Index) + ":" + itoa(i) + "|" + rk + "|" + cur.bk
+		k := fr.key + "|" + b.Parent().Name() + "#" + itoa(b.Index) + ":" + itoa(i) + "|" + rk + "|" + cur.bk + "|" + cur.dk
 		if seen[k] {
 			return
 		}
 		seen[k] = true
-		work = append(work, vpoint{fr: fr, blk: b, idx: i, ret: ret, rk: rk, benv: cur.benv, bk: cur.bk})
+		work = append(work, vpoint{fr: fr, blk: b, idx: i, ret: ret, rk: rk, benv: cur.benv, bk: cur.bk, denv: cur.denv, dk: cur.dk})
 	}
 	push := func(fr *frame, b *ssa.BasicBlock, i int) { pushR(fr, b, i, cur.ret, cur.rk) }
+	nextDenv, nextDk := map[string]bool(nil), ""
 	pushFrom := func(fr *frame, b, pred *ssa.BasicBlock) {
 		benv, bk := boolPhiEnv(cur.benv, cur.bk, b, pred)
-		k := fr.key + "|" + b.Parent().Name() + "#" + itoa(b.Index) + ":0|" + cur.rk + "|" + bk
+		denv, dk := cur.denv, cur.dk
+		if nextDenv != nil {
+			denv, dk = nextDenv, nextDk
+		}
+		k := fr.key + "|" + b.Parent().Name() + "#" + itoa(b.Index) + ":0|" + cur.rk + "|" + bk + "|" + dk
 		if seen[k] {
 			return
 		}
 		seen[k] = true
-		work = append(work, vpoint{fr: fr, blk: b, idx: 0, ret: cur.ret, rk: cur.rk, benv: benv, bk: bk})
+		work = append(work, vpoint{fr: fr, blk: b, idx: 0, ret: cur.ret, rk: cur.rk, benv: benv, bk: bk, denv: denv, dk: dk})
 	}
 	push(newFrame(root, nil, nil), root.Blocks[0], 0)
 	for len(work) > 0 {
@@ -661,7 +689,18 @@ func viPathToSite(root *ssa.Function, s Site, cutEdge EdgePred, cutInstr func(ss
 				if len(pt.ret) > 0 && (infeasibleEdge(cond, br) || nilTestContradictsReturn(cond, br, pt.ret)) {
 					continue // contradicts the value the helper returned on this path
 				}
+				if factNil(neverNil, true)(cond, br) {
+					continue // a defensive nil test of a value that is never nil (a fresh allocation, bufio.NewReader(…) …)
+				}
+				// a pure condition over unmodified local state that the function tests more than once comes out the same
+				// way every time on one path (`case a == nil && …: … case a != nil:`)
+				var contradiction bool
+				nextDenv, nextDk, contradiction = decideRepeated(pt.denv, cond, br, b.Parent())
+				if contradiction {
+					continue
+				}
 				pushFrom(fr, b.Succs[i], b)
+				nextDenv, nextDk = nil, ""
 			}
 		} else {
 			for _, sc := range b.Succs {
@@ -951,4 +990,229 @@ func pureDelegate(f *ssa.Function) *ssa.Function {
 		}
 	}
 	return g
+}
+
+// decideRepeated records, for a pure condition the function tests more than once, the way it came out on this path;
+// it reports a contradiction when the branch about to be taken disagrees with an earlier outcome of the same condition.
+func decideRepeated(denv map[string]bool, cond ssa.Value, br bool, f *ssa.Function) (map[string]bool, string, bool) {
+	key, neg, okK := stableCondKey(cond)
+	if !okK || !repeatedCond(f, key) {
+		return nil, "", false
+	}
+	val := br != neg
+	if prev, has := denv[key]; has {
+		return nil, "", prev != val
+	}
+	next := map[string]bool{key: val}
+	for k2, v2 := range denv {
+		next[k2] = v2
+	}
+	var ks []string
+	for k2, v2 := range next {
+		if v2 {
+			ks = append(ks, k2+"=1")
+		} else {
+			ks = append(ks, k2+"=0")
+		}
+	}
+	sort.Strings(ks)
+	return next, strings.Join(ks, ";"), false
+}
+
+// stableCondKey names a PURE condition over state that cannot change while the function runs: an equality test
+// between constants, parameters and fields read from a local struct variable that is written once (a by-value
+// parameter) and whose address is used for field reads only. neg says the condition is the negation of the named one.
+func stableCondKey(cond ssa.Value) (key string, neg bool, ok bool) {
+	for i := 0; i < 4; i++ {
+		if u, isU := cond.(*ssa.UnOp); isU && u.Op == token.NOT {
+			cond, neg = u.X, !neg
+			continue
+		}
+		break
+	}
+	bo, isB := cond.(*ssa.BinOp)
+	if !isB || (bo.Op != token.EQL && bo.Op != token.NEQ) {
+		return "", false, false
+	}
+	if bo.Op == token.NEQ {
+		neg = !neg
+	}
+	kx, okx := stableOperandKey(bo.X)
+	ky, oky := stableOperandKey(bo.Y)
+	if !okx || !oky {
+		return "", false, false
+	}
+	if ky < kx {
+		kx, ky = ky, kx
+	}
+	return "eq(" + kx + "," + ky + ")", neg, true
+}
+
+func stableOperandKey(v ssa.Value) (string, bool) {
+	switch x := v.(type) {
+	case *ssa.Const:
+		if x.Value == nil {
+			return "nil:" + x.Type().String(), true
+		}
+		return "k:" + x.Value.ExactString(), true
+	case *ssa.Parameter:
+		return "p:" + x.Name(), true
+	case *ssa.UnOp:
+		if x.Op != token.MUL {
+			return "", false
+		}
+		path := ""
+		a := x.X
+		for {
+			fa, isFA := a.(*ssa.FieldAddr)
+			if !isFA {
+				break
+			}
+			path = "." + itoa(fa.Field) + path
+			a = fa.X
+		}
+		al, isAl := a.(*ssa.Alloc)
+		if !isAl || path == "" || !writtenOnceFieldReadOnly(al) {
+			return "", false
+		}
+		return "a:" + al.Name() + path, true
+	}
+	return "", false
+}
+
+var wofroCache = map[*ssa.Alloc]bool{}
+
+// writtenOnceFieldReadOnly: the local struct variable is stored to exactly once as a whole, in the entry block (a
+// by-value parameter being spilled), and every other use of its address is a field address that is only loaded from.
+func writtenOnceFieldReadOnly(al *ssa.Alloc) bool {
+	if v, ok := wofroCache[al]; ok {
+		return v
+	}
+	res := func() bool {
+		if al.Referrers() == nil {
+			return false
+		}
+		stores := 0
+		var fieldOnlyLoaded func(fa *ssa.FieldAddr, d int) bool
+		fieldOnlyLoaded = func(fa *ssa.FieldAddr, d int) bool {
+			if fa.Referrers() == nil || d > 4 {
+				return false
+			}
+			for _, r := range *fa.Referrers() {
+				switch y := r.(type) {
+				case *ssa.UnOp:
+					if y.Op != token.MUL {
+						return false
+					}
+				case *ssa.FieldAddr:
+					if !fieldOnlyLoaded(y, d+1) {
+						return false
+					}
+				case *ssa.DebugRef:
+				default:
+					return false
+				}
+			}
+			return true
+		}
+		for _, r := range *al.Referrers() {
+			switch y := r.(type) {
+			case *ssa.Store:
+				if y.Addr != ssa.Value(al) || y.Block() != al.Parent().Blocks[0] {
+					return false
+				}
+				if _, isP := y.Val.(*ssa.Parameter); !isP {
+					return false
+				}
+				stores++
+			case *ssa.FieldAddr:
+				if !fieldOnlyLoaded(y, 0) {
+					return false
+				}
+			case *ssa.DebugRef:
+			default:
+				return false
+			}
+		}
+		return stores == 1
+	}()
+	wofroCache[al] = res
+	return res
+}
+
+var repeatedCondCache = map[*ssa.Function]map[string]int{}
+
+// repeatedCond: the function has more than one If on the pure condition named key.
+func repeatedCond(f *ssa.Function, key string) bool {
+	m, ok := repeatedCondCache[f]
+	if !ok {
+		m = map[string]int{}
+		for _, b := range f.Blocks {
+			if len(b.Instrs) == 0 {
+				continue
+			}
+			if iff, isIf := b.Instrs[len(b.Instrs)-1].(*ssa.If); isIf {
+				// (a condition `a && b` held in a variable is a phi whose operands are the conjuncts decided on each path)
+				var count func(v ssa.Value, d int)
+				count = func(v ssa.Value, d int) {
+					for i := 0; i < 4; i++ {
+						if u, isU := v.(*ssa.UnOp); isU && u.Op == token.NOT {
+							v = u.X
+							continue
+						}
+						break
+					}
+					if phi, isPhi := v.(*ssa.Phi); isPhi && d < 3 {
+						for _, e := range phi.Edges {
+							count(e, d+1)
+						}
+						return
+					}
+					if k, _, okK := stableCondKey(v); okK {
+						m[k]++
+					}
+				}
+				count(iff.Cond, 0)
+			}
+		}
+		repeatedCondCache[f] = m
+	}
+	return m[key] > 1
+}
+
+// neverNil: the value is, on every way it can be computed, a fresh allocation or the result of a standard-library
+// constructor documented never to return nil — a nil test on it is a defensive check that cannot fire.
+func neverNil(v ssa.Value) bool {
+	return neverNilD(v, 0)
+}
+
+// (decided on the value itself — through merges and conversions only — so that it can be asked while a path is being
+// explored without re-entering the path search)
+func neverNilD(v ssa.Value, d int) bool {
+	if d > 3 {
+		return false
+	}
+	switch x := v.(type) {
+	case *ssa.Alloc, *ssa.MakeMap, *ssa.MakeSlice, *ssa.MakeClosure, *ssa.MakeChan:
+		return true
+	case *ssa.ChangeType:
+		return neverNilD(x.X, d+1)
+	case *ssa.Phi:
+		for _, e := range x.Edges {
+			if !neverNilD(e, d+1) {
+				return false
+			}
+		}
+		return len(x.Edges) > 0
+	case *ssa.Call:
+		switch calleeName(&x.Call) {
+		case "bufio.NewReader", "bufio.NewReaderSize", "bufio.NewWriter", "bufio.NewWriterSize", "bufio.NewScanner",
+			"bytes.NewBuffer", "bytes.NewBufferString", "bytes.NewReader", "strings.NewReader", "strings.NewReplacer",
+			"mime/multipart.NewWriter", "net/http.NewServeMux", "regexp.MustCompile", "crypto/x509.NewCertPool",
+			"encoding/json.NewDecoder", "encoding/json.NewEncoder", "encoding/csv.NewReader", "encoding/csv.NewWriter",
+			"encoding/xml.NewDecoder", "encoding/xml.NewEncoder":
+			return true
+		}
+	}
+	return false
 }
